@@ -29,8 +29,8 @@
 (* fields; nil pointer = Nil; slices = sequences; strings = code points.    *)
 (*                                                                         *)
 (* PRINTER.  W<Type>(d, s, e) is e.writeTo(s): s is the strings.Builder so  *)
-(* far (Index.writeTo inspects its last byte), d the set of deviations of   *)
-(* query.go that are switched on (see CodeDeviations at the end).           *)
+(* far (Index.writeTo inspects its last byte), d a set of deviations        *)
+(* switched on - negative controls, empty for the code (see the end).       *)
 (* PrintQ(q) = q.String().                                                  *)
 (***************************************************************************)
 EXTENDS Lexer
@@ -633,7 +633,8 @@ WBindPatterns(d, s, ps, i) ==
 WImports(d, s, ims, i) ==
   IF i > Len(ims) THEN s
   ELSE LET im == ims[i]
-           \* query.go tests ImportPath != "" (deviation "emptyImport"); the alias is what tells them apart
+           \* Import.writeTo tells an import from an include by its alias; negative control "emptyImport":
+           \* telling them apart by the path prints `import "" as a;` as an include
            isImport == IF "emptyImport" \in d THEN im.ImportPath # <<>> ELSE im.ImportAlias # <<>>
            a == IF isImport
                 THEN s \o S_import \o JsonStr(im.ImportPath) \o S_as \o im.ImportAlias
@@ -689,12 +690,12 @@ WTerm(d, s, e) ==
              [] ty = "TermTypeBreak" -> s \o S_break \o e.Break
              [] ty = "TermTypeQuery" -> Append(WQuery(d, Append(s, 40), e.Query), 41)
              [] OTHER -> s
-      \* query.go writes a bracket suffix bare, also as the first suffix of an identity term, where
-      \* ".[" then reads as an index TERM (deviation "dotBracket"); the repaired printer writes ". .[0]"
+      \* Term.writeTo: the first suffix of an identity term, when it is an index, is written through
+      \* Index.writeTo (". .[0]" != ".[0]"); negative control "dotBracket": written as a plain suffix,
+      \* `. .[0]` comes out as `.[0]`, which is an index TERM
       sl == e.SuffixList
-      bracketFirst == ty = "TermTypeIdentity" /\ Len(sl) > 0 /\ ~IsNil(sl[1].Index)
-                      /\ sl[1].Index.Name = <<>> /\ IsNil(sl[1].Index.Str)
-  IN IF bracketFirst /\ "dotBracket" \notin d
+      indexFirst == ty = "TermTypeIdentity" /\ Len(sl) > 0 /\ ~IsNil(sl[1].Index)
+  IN IF indexFirst /\ "dotBracket" \notin d
      THEN WSuffixes(d, WIndex(d, a, sl[1].Index), sl, 2)
      ELSE WSuffixes(d, a, sl, 1)
 
@@ -794,17 +795,17 @@ WConstKVs(d, s, kvs, i) ==
            b == IF kv.Key # <<>> THEN a \o kv.Key ELSE a \o JsonStr(kv.KeyString)
        IN WConstKVs(d, WConstTerm(d, b \o S_colsp, kv.Val), kvs, i + 1)
 
-(* The printer of query.go deviates from a printer that satisfies the        *)
-(* property in two places; each is a named switch (DESIGN 4: a mismatch is  *)
-(* attributed to a finding iff the real behaviour equals the specification  *)
-(* with that deviation on and the law holds with it off).                   *)
-(*   emptyImport  `import "" as a;` is printed as `include "";`             *)
-(*   dotBracket   `. .[0]` (identity term with a bracket suffix) is printed *)
-(*                as `.[0]`, which is an index term                         *)
-CodeDeviations == {"emptyImport", "dotBracket"}
+(* d is a set of DEVIATIONS switched on.  The printer of query.go is the one *)
+(* with none (both were defects of query.go, repaired by commit "fix: print  *)
+(* queries so that they parse back to the same tree"; witnesses kept as     *)
+(* regression cases of the check).  The switches remain as negative         *)
+(* controls of the model: with one on, TLC must find the counterexample     *)
+(* (GrammarMC_neg*.cfg).                                                    *)
+(*   emptyImport  `import "" as a;` printed as `include "";`                *)
+(*   dotBracket   `. .[0]` printed as `.[0]`                                *)
+CodeDeviations == {}
 PrintDev(d, q) == WQuery(d, <<>>, q)
 PrintQ(q) == PrintDev(CodeDeviations, q)           \* what query.go prints
-PrintRepaired(q) == PrintDev({}, q)
 
 ----------------------------------------------------------------------------
 (* The round-trip law of the property, stated on the specification.          *)
